@@ -450,9 +450,9 @@ func parsePatch(br *bufio.Reader) (cid.Cid, string, []byte, error) {
 	ob := outBuf.Bytes()
 
 	// remove the final line return
-	if len(ob) > 2 && bytes.Equal(ob[len(ob)-2:], []byte("\r\n")) {
+	if len(ob) >= 2 && bytes.Equal(ob[len(ob)-2:], []byte("\r\n")) {
 		ob = ob[:len(ob)-2]
-	} else if len(ob) > 1 && bytes.Equal(ob[len(ob)-1:], []byte("\n")) {
+	} else if len(ob) >= 1 && bytes.Equal(ob[len(ob)-1:], []byte("\n")) {
 		ob = ob[:len(ob)-1]
 	}
 
